@@ -1,0 +1,16 @@
+//go:build verif
+
+// Contracts for /verif/govc (comment-only file; never part of a normal build).
+package raczlib
+
+//@ default mode int
+
+// rac.Writer assumes of every CodecWriter.Cut (interface contract) that on success
+// 0 <= encodedLen <= maxEncodedLen, encodedLen <= len(encoded) and decodedLen >= 0.
+// For the zlib codec that assumption is discharged here, through zlibcut.Cut's and
+// flatecut.Cut's proved contracts (property C16).
+//@ func (*CodecWriter).Cut
+//@   prop C13
+//@   requires len(encoded) <= 0x100000000000000
+//@   ensures[ifacecontract] implies(retErr == nil, 0 <= encodedLen && encodedLen <= maxEncodedLen && encodedLen <= len(encoded) && decodedLen >= 0)
+//@   modifies mem(encoded)
